@@ -346,5 +346,49 @@ fn main() {
             }
         }
     }
+    // ---- keys locked by the key builder: every component unlocks with the passphrase it was given, and with no other; also
+    //      after serialising and parsing (primary and subkeys with passphrases of their own, or an open primary over locked subkeys)
+    {
+        use pgp::composed::{Deserializable, EncryptionCaps, SecretKeyParamsBuilder, SubkeyParamsBuilder};
+        for (ver, prim_pw, sub_pws, name) in [
+            (KeyVersion::V4, Some("primary-pw"), vec![Some("sub-one"), Some("sub-two")], "v4-own-passphrases"),
+            (KeyVersion::V6, Some("primary-pw"), vec![Some("sub-one"), None], "v6-own-passphrases"),
+            (KeyVersion::V4, None, vec![Some("sub-one"), Some("sub-one")], "v4-open-primary-locked-subkeys"),
+            (KeyVersion::V6, Some("same"), vec![Some("same")], "v6-one-passphrase"),
+        ] {
+            let built = guarded(|| -> Option<SignedSecretKey> {
+                let mut subs = Vec::new();
+                for (i, sp) in sub_pws.iter().enumerate() {
+                    let mut sb = SubkeyParamsBuilder::default();
+                    sb.version(ver).key_type(if ver == KeyVersion::V6 { KeyType::X25519 } else { KeyType::ECDH(ECCCurve::Curve25519Legacy) });
+                    if i == 0 { sb.can_encrypt(EncryptionCaps::All); } else { sb.key_type(if ver == KeyVersion::V6 { KeyType::Ed25519 } else { KeyType::Ed25519Legacy }).can_sign(true); }
+                    if let Some(p) = sp { sb.passphrase(Some(p.to_string())); }
+                    subs.push(sb.build().ok()?);
+                }
+                let mut pb = SecretKeyParamsBuilder::default();
+                pb.version(ver).key_type(if ver == KeyVersion::V6 { KeyType::Ed25519 } else { KeyType::Ed25519Legacy }).can_certify(true).can_sign(true).primary_user_id("c08 <c08@example.org>".into()).subkeys(subs);
+                if let Some(p) = prim_pw { pb.passphrase(Some(p.to_string())); }
+                pb.build().ok()?.generate(Rng::new(880)).ok()
+            });
+            let Ok(Some(k)) = built else { cx.out.case("", &[], &["builder-locked".into(), name.into()], "key generation failed", Some(false), "builder-locked-unavailable"); continue; };
+            for (form, key) in [("built", Some(k.clone())), ("reparsed", k.to_bytes().ok().and_then(|b| SignedSecretKey::from_bytes(&b[..]).ok()))] {
+                let Some(key) = key else { cx.out.case("", &[], &["builder-locked".into(), name.into(), form.into()], "does not parse back", Some(false), "builder-locked"); continue; };
+                let candidates = ["primary-pw", "sub-one", "sub-two", "same", "", "wrong"];
+                let mut facts: Vec<String> = Vec::new(); let mut ok = true;
+                let mut probe = |what: String, given: Option<&str>, unlock: &dyn Fn(&Password) -> bool| {
+                    for c in candidates {
+                        let opens = guarded(|| unlock(&Password::from(c))).unwrap_or(false);
+                        let should = match given { Some(g) => g == c, None => true };
+                        if opens != should { ok = false; facts.push(format!("{what}: passphrase {c:?} opens={opens} (given {given:?})")); }
+                    }
+                };
+                probe("primary".into(), prim_pw, &|pw| key.primary_key.unlock(pw, |_, _| Ok(())).map(|r| r.is_ok()).unwrap_or(false));
+                for (i, (sub, sp)) in key.secret_subkeys.iter().zip(sub_pws.iter()).enumerate() {
+                    probe(format!("subkey {i}"), *sp, &|pw| sub.key.unlock(pw, |_, _| Ok(())).map(|r| r.is_ok()).unwrap_or(false));
+                }
+                cx.out.case("", &[], &["builder-locked".into(), name.into(), form.into()], &if ok { "every component opens with its own passphrase only".to_string() } else { facts.join(" | ") }, Some(ok), &format!("builder-locked-{form}"));
+            }
+        }
+    }
     cx.out.finish();
 }
